@@ -6,6 +6,7 @@ import (
 	"database/sql"
 	"encoding/json"
 	"fmt"
+	"github.com/go-sql-driver/mysql"
 	"math"
 	"os"
 	"strings"
@@ -27,6 +28,8 @@ type Op struct {
 	Kind string        `json:"kind"` // exec, query, prep-exec, prep-query
 	SQL  string        `json:"sql"`
 	Args []interface{} `json:"args,omitempty"`
+	// Args2: a prepared statement is executed a second time with these arguments before it is closed
+	Args2 []interface{} `json:"args2,omitempty"`
 }
 
 // Unit is an op in autocommit, or a list of ops in an explicit transaction ended by commit or rollback.
@@ -61,6 +64,9 @@ type Case struct {
 	Mode   string `json:"mode"`   // outside | inside (a global transaction) | mixed (global and plain work on one handle)
 	Params string `json:"params"` // ip | noip (interpolateParams)
 	Pinned bool   `json:"pinned,omitempty"`
+	// Fault k > 0: the k-th database operation of the program (1-based, connection set-up not counted) fails with an injected
+	// error, on the bare side and on the proxy side alike (outside a global transaction the two see the same operations)
+	Fault int `json:"fault,omitempty"`
 }
 
 type Located struct {
@@ -73,43 +79,46 @@ var t0 = time.Date(2024, 5, 6, 7, 8, 9, 0, time.UTC)
 
 func ops() []Op {
 	return []Op{
-		{"q-all", "query", "SELECT id, name, cnt FROM t_s1 ORDER BY id", nil},
-		{"q-bound", "query", "SELECT name, cnt FROM t_s1 WHERE id = ?", []interface{}{int64(1)}},
-		{"q-none", "query", "SELECT * FROM t_s1 WHERE id = 404", nil},
-		{"q-forupdate", "query", "SELECT cnt FROM t_s1 WHERE id = 1 FOR UPDATE", nil},
-		{"q-forupdate-bound", "query", "SELECT cnt FROM t_s1 WHERE id = ? FOR UPDATE", []interface{}{int64(2)}},
-		{"ins-lit", "exec", "INSERT INTO t_s1 (id, name, cnt) VALUES (5, 'e', 50)", nil},
-		{"ins-bound", "exec", "INSERT INTO t_s1 (id, name, cnt) VALUES (?, ?, ?)", []interface{}{int64(6), "f", 60}},
-		{"ins-auto", "exec", "INSERT INTO t_s2 (name, cnt) VALUES ('e', 50)", nil},
-		{"ins-auto-2", "exec", "INSERT INTO t_s2 (name, cnt) VALUES (?, ?), (?, ?)", []interface{}{"e", 50, "f", 60}},
-		{"ins-dup", "exec", "INSERT INTO t_s1 (id, name, cnt) VALUES (1, 'dup', 0)", nil},
-		{"ins-extremes", "exec", "INSERT INTO t_s5 (id, email, score, memo) VALUES (?, ?, ?, ?)", []interface{}{int64(math.MaxInt64), nil, 1.5, []byte("by\x00tes")}},
-		{"ins-time", "exec", "INSERT INTO t_s6 (id, c_dt, c_big) VALUES (?, ?, ?)", []interface{}{int64(9), t0, uint64(1) << 62}},
-		{"upd-bound", "exec", "UPDATE t_s1 SET cnt = cnt + ? WHERE id = ?", []interface{}{5, int64(1)}},
-		{"upd-lit-string", "exec", "UPDATE t_s1 SET name = 'x' WHERE name = 'b'", nil},
-		{"upd-none", "exec", "UPDATE t_s1 SET cnt = 1 WHERE id = 404", nil},
-		{"upd-many", "exec", "UPDATE t_s1 SET cnt = cnt + 1 WHERE cnt >= 20", nil},
-		{"del-bound", "exec", "DELETE FROM t_s1 WHERE id = ?", []interface{}{int64(2)}},
-		{"del-lit", "exec", "DELETE FROM t_s1 WHERE cnt > 15", nil},
-		{"ups", "exec", "INSERT INTO t_s1 (id, name, cnt) VALUES (1, 'z', 9) ON DUPLICATE KEY UPDATE cnt = cnt + 1", nil},
-		{"syntax", "exec", "UPDAT t_s1 SET cnt = 1", nil},
-		{"no-table", "query", "SELECT * FROM t_missing", nil},
-		{"ddl-create", "exec", "CREATE TABLE t_tmp (id INT NOT NULL, PRIMARY KEY (id))", nil},
-		{"ddl-drop", "exec", "DROP TABLE IF EXISTS t_tmp", nil},
-		{"set", "exec", "SET NAMES utf8mb4", nil},
-		{"show", "query", "SHOW VARIABLES LIKE 'auto_increment_increment'", nil},
-		{"multi-upd", "exec", "UPDATE t_s1 SET cnt = 1 WHERE id = 1; UPDATE t_s1 SET cnt = 2 WHERE id = 2", nil},
-		{"multi-mixed", "exec", "INSERT INTO t_s1 (id, name, cnt) VALUES (7, 'g', 70); DELETE FROM t_s1 WHERE id = 3", nil},
-		{"prep-upd", "prep-exec", "UPDATE t_s1 SET name = ? WHERE id = ?", []interface{}{"pp", int64(3)}},
-		{"prep-ins", "prep-exec", "INSERT INTO t_s1 (id, name, cnt) VALUES (?, ?, ?)", []interface{}{int64(8), "h", 80}},
-		{"prep-q", "prep-query", "SELECT id, cnt FROM t_s1 WHERE cnt >= ? ORDER BY id", []interface{}{20}},
+		{"q-all", "query", "SELECT id, name, cnt FROM t_s1 ORDER BY id", nil, nil},
+		{"q-bound", "query", "SELECT name, cnt FROM t_s1 WHERE id = ?", []interface{}{int64(1)}, nil},
+		{"q-none", "query", "SELECT * FROM t_s1 WHERE id = 404", nil, nil},
+		{"q-forupdate", "query", "SELECT cnt FROM t_s1 WHERE id = 1 FOR UPDATE", nil, nil},
+		{"q-forupdate-bound", "query", "SELECT cnt FROM t_s1 WHERE id = ? FOR UPDATE", []interface{}{int64(2)}, nil},
+		{"ins-lit", "exec", "INSERT INTO t_s1 (id, name, cnt) VALUES (5, 'e', 50)", nil, nil},
+		{"ins-bound", "exec", "INSERT INTO t_s1 (id, name, cnt) VALUES (?, ?, ?)", []interface{}{int64(6), "f", 60}, nil},
+		{"ins-auto", "exec", "INSERT INTO t_s2 (name, cnt) VALUES ('e', 50)", nil, nil},
+		{"ins-auto-2", "exec", "INSERT INTO t_s2 (name, cnt) VALUES (?, ?), (?, ?)", []interface{}{"e", 50, "f", 60}, nil},
+		{"ins-dup", "exec", "INSERT INTO t_s1 (id, name, cnt) VALUES (1, 'dup', 0)", nil, nil},
+		{"ins-extremes", "exec", "INSERT INTO t_s5 (id, email, score, memo) VALUES (?, ?, ?, ?)", []interface{}{int64(math.MaxInt64), nil, 1.5, []byte("by\x00tes")}, nil},
+		{"ins-time", "exec", "INSERT INTO t_s6 (id, c_dt, c_big) VALUES (?, ?, ?)", []interface{}{int64(9), t0, uint64(1) << 62}, nil},
+		{"upd-bound", "exec", "UPDATE t_s1 SET cnt = cnt + ? WHERE id = ?", []interface{}{5, int64(1)}, nil},
+		{"upd-lit-string", "exec", "UPDATE t_s1 SET name = 'x' WHERE name = 'b'", nil, nil},
+		{"upd-none", "exec", "UPDATE t_s1 SET cnt = 1 WHERE id = 404", nil, nil},
+		{"upd-many", "exec", "UPDATE t_s1 SET cnt = cnt + 1 WHERE cnt >= 20", nil, nil},
+		{"del-bound", "exec", "DELETE FROM t_s1 WHERE id = ?", []interface{}{int64(2)}, nil},
+		{"del-lit", "exec", "DELETE FROM t_s1 WHERE cnt > 15", nil, nil},
+		{"ups", "exec", "INSERT INTO t_s1 (id, name, cnt) VALUES (1, 'z', 9) ON DUPLICATE KEY UPDATE cnt = cnt + 1", nil, nil},
+		{"syntax", "exec", "UPDAT t_s1 SET cnt = 1", nil, nil},
+		{"no-table", "query", "SELECT * FROM t_missing", nil, nil},
+		{"ddl-create", "exec", "CREATE TABLE t_tmp (id INT NOT NULL, PRIMARY KEY (id))", nil, nil},
+		{"ddl-drop", "exec", "DROP TABLE IF EXISTS t_tmp", nil, nil},
+		{"set", "exec", "SET NAMES utf8mb4", nil, nil},
+		{"show", "query", "SHOW VARIABLES LIKE 'auto_increment_increment'", nil, nil},
+		{"multi-upd", "exec", "UPDATE t_s1 SET cnt = 1 WHERE id = 1; UPDATE t_s1 SET cnt = 2 WHERE id = 2", nil, nil},
+		{"multi-mixed", "exec", "INSERT INTO t_s1 (id, name, cnt) VALUES (7, 'g', 70); DELETE FROM t_s1 WHERE id = 3", nil, nil},
+		{"prep-upd", "prep-exec", "UPDATE t_s1 SET name = ? WHERE id = ?", []interface{}{"pp", int64(3)}, nil},
+		{"prep-ins", "prep-exec", "INSERT INTO t_s1 (id, name, cnt) VALUES (?, ?, ?)", []interface{}{int64(8), "h", 80}, nil},
+		{"prep-q", "prep-query", "SELECT id, cnt FROM t_s1 WHERE cnt >= ? ORDER BY id", []interface{}{20}, nil},
+		{"prep-upd-twice", "prep-exec", "UPDATE t_s1 SET name = ? WHERE id = ?", []interface{}{"pp", int64(3)}, []interface{}{"qq", int64(1)}},
+		{"prep-ins-twice", "prep-exec", "INSERT INTO t_s1 (id, name, cnt) VALUES (?, ?, ?)", []interface{}{int64(8), "h", 80}, []interface{}{int64(9), "i", 90}},
+		{"prep-q-twice", "prep-query", "SELECT id, cnt FROM t_s1 WHERE cnt >= ? ORDER BY id", []interface{}{20}, []interface{}{30}},
 	}
 }
 
 func txOnly() []Op {
 	return []Op{
-		{"savepoint", "exec", "SAVEPOINT sp1", nil},
-		{"rollback-to", "exec", "ROLLBACK TO sp1", nil},
+		{"savepoint", "exec", "SAVEPOINT sp1", nil, nil},
+		{"rollback-to", "exec", "ROLLBACK TO sp1", nil, nil},
 	}
 }
 
@@ -144,6 +153,7 @@ func units(thorough bool) []Unit {
 			Unit{Ops: pick("ins-dup", "upd-bound"), Tx: end},
 			Unit{Ops: pick("prep-upd", "prep-q"), Tx: end},
 			Unit{Ops: pick("del-bound", "ins-auto"), Tx: end},
+			Unit{Ops: pick("prep-upd-twice", "prep-q-twice"), Tx: end},
 		)
 	}
 	// explicit transactions opened with options: the database must see the same options
@@ -180,12 +190,12 @@ func Enumerate(thorough bool, yield func(idx int, c Case)) int {
 				continue // A6: AT mode requires interpolateParams
 			}
 			for _, u := range us {
-				yield(idx, Case{[]Unit{u}, mode, params, false})
+				yield(idx, Case{Units: []Unit{u}, Mode: mode, Params: params, Pinned: false})
 				idx++
 			}
 			for _, a := range us {
 				for _, b := range second {
-					yield(idx, Case{[]Unit{a, b}, mode, params, false})
+					yield(idx, Case{Units: []Unit{a, b}, Mode: mode, Params: params, Pinned: false})
 					idx++
 				}
 			}
@@ -205,7 +215,7 @@ func Enumerate(thorough bool, yield func(idx int, c Case)) int {
 				for _, a := range small {
 					for _, b := range small {
 						for _, c := range small {
-							yield(idx, Case{[]Unit{a, b, c}, mode, params, false})
+							yield(idx, Case{Units: []Unit{a, b, c}, Mode: mode, Params: params, Pinned: false})
 							idx++
 						}
 					}
@@ -235,9 +245,9 @@ func Enumerate(thorough bool, yield func(idx int, c Case)) int {
 		for _, pinned := range []bool{false, true} {
 			for _, g := range gUnits {
 				for _, p := range pUnits {
-					yield(idx, Case{[]Unit{g, p}, "mixed", params, pinned})
+					yield(idx, Case{Units: []Unit{g, p}, Mode: "mixed", Params: params, Pinned: pinned})
 					idx++
-					yield(idx, Case{[]Unit{p, g, p}, "mixed", params, pinned})
+					yield(idx, Case{Units: []Unit{p, g, p}, Mode: "mixed", Params: params, Pinned: pinned})
 					idx++
 				}
 			}
@@ -255,6 +265,7 @@ type OpResult struct {
 	Cols     []string   `json:"cols,omitempty"`
 	Rows     [][]string `json:"rows,omitempty"`
 	Panic    string     `json:"panic,omitempty"`
+	More     []OpResult `json:"more,omitempty"` // second execution of a prepared statement
 }
 
 type runner interface {
@@ -333,6 +344,16 @@ func runOp(ctx context.Context, r runner, o Op) (res OpResult) {
 				res.Affected, _ = rs.RowsAffected()
 				res.LastID, _ = rs.LastInsertId()
 			}
+			if o.Args2 != nil {
+				var m OpResult
+				if rs, err := st.ExecContext(ctx, o.Args2...); err != nil {
+					m.Err = err.Error()
+				} else {
+					m.Affected, _ = rs.RowsAffected()
+					m.LastID, _ = rs.LastInsertId()
+				}
+				res.More = append(res.More, m)
+			}
 			st.Close()
 		}
 	case "prep-query":
@@ -345,6 +366,18 @@ func runOp(ctx context.Context, r runner, o Op) (res OpResult) {
 				var e2 error
 				res.Cols, res.Rows, e2 = readRows(rows)
 				setErr(e2)
+			}
+			if o.Args2 != nil {
+				var m OpResult
+				if rows, err := st.QueryContext(ctx, o.Args2...); err != nil {
+					m.Err = err.Error()
+				} else {
+					var e2 error
+					if m.Cols, m.Rows, e2 = readRows(rows); e2 != nil {
+						m.Err = e2.Error()
+					}
+				}
+				res.More = append(res.More, m)
 			}
 			st.Close()
 		}
@@ -515,6 +548,8 @@ type sideRun struct {
 	raw     []memdb.Entry
 	state   string
 	tcReqs  int
+	// faultHit: the injected failure was reached
+	faultHit bool
 }
 
 func runSide(e *sys.Env, db *sql.DB, c Case, global bool) (sideRun, error) {
@@ -532,6 +567,21 @@ func runSide(e *sys.Env, db *sql.DB, c Case, global bool) (sideRun, error) {
 		conn, h = cn, cn
 	}
 	jlen := func() int { return len(lines(e.Srv.Journal())) }
+	if c.Fault > 0 {
+		n := 0
+		e.Srv.Fault = func(o memdb.Op) error {
+			if o.Kind == "connect" {
+				return nil
+			}
+			n++
+			if n == c.Fault {
+				sr.faultHit = true
+				return &mysql.MySQLError{Number: 1205, Message: "Lock wait timeout exceeded (injected)"}
+			}
+			return nil
+		}
+		defer func() { e.Srv.Fault = nil }()
+	}
 	switch {
 	case c.Mode == "mixed":
 		sr.res = runMixed(h, c.Units, db != e.Bare, &sr.marks, jlen)
@@ -596,6 +646,9 @@ func allowedExtra(l journalLine) bool {
 	return false
 }
 
+// journalSame: per proxy side, whether the fault-free run of the current case issued exactly the bare driver's operations.
+var journalSame = map[string]bool{}
+
 func evalCase(r *rep.Run, envs map[string]*sys.Env, c Case, idx int) {
 	e := envs[c.Params]
 	sys.TakeErrors()
@@ -603,6 +656,30 @@ func evalCase(r *rep.Run, envs map[string]*sys.Env, c Case, idx int) {
 	if err != nil {
 		r.Broken = err.Error()
 		return
+	}
+	if c.Fault > 0 && !bare.faultHit {
+		return // the program has fewer operations
+	}
+	mode := c.Mode
+	if c.Fault > 0 {
+		mode += "+dbfault"
+		r.Count("db_fault_cases", 1)
+		if bare.openTx != 0 || bare.locks != 0 {
+			e.Srv.Crash() // a failed ROLLBACK leaves the transaction to the server, on both sides
+		}
+	} else if c.Mode == "outside" && c.Params == "ip" && len(c.Units) == 1 {
+		// every database operation of the program fails in turn; the proxy must hand back what the bare driver hands back
+		defer func() {
+			for k := 1; k <= 24; k++ {
+				c2 := c
+				c2.Fault = k
+				n := r.Counters["db_fault_cases"]
+				evalCase(r, envs, c2, idx)
+				if r.Counters["db_fault_cases"] == n {
+					break
+				}
+			}
+		}()
 	}
 	nontrivial := false
 	for _, l := range bare.journal {
@@ -624,6 +701,12 @@ func evalCase(r *rep.Run, envs map[string]*sys.Env, c Case, idx int) {
 		sides = append(sides, side{"xa", e.XA})
 	}
 	for _, sd := range sides {
+		if c.Fault > 0 && !journalSame[sd.name] {
+			continue // position k names the same operation on both sides only when the fault-free journals are identical
+		}
+		if c.Fault == 0 {
+			journalSame[sd.name] = false
+		}
 		if c.Mode == "mixed" && sd.name == "xa" {
 			hasG := false
 			for _, u := range c.Units {
@@ -678,16 +761,16 @@ func evalCase(r *rep.Run, envs map[string]*sys.Env, c Case, idx int) {
 				} else if bare.res[i].Err != got.res[i].Err {
 					cl = "error"
 				}
-				r.Violate(fmt.Sprintf("%s/%s/%s/%s/%s/%s", cl, c.Mode, sd.name, c.Params, opn, errClass(got.res[i].Err+got.res[i].Panic+" "+clientErrs)), "each statement returns what the bare driver returns", loc,
+				r.Violate(fmt.Sprintf("%s/%s/%s/%s/%s/%s", cl, mode, sd.name, c.Params, opn, errClass(got.res[i].Err+got.res[i].Panic+" "+clientErrs)), "each statement returns what the bare driver returns", loc,
 					fmt.Sprintf("op #%d (%s): bare=%s proxy=%s\n%s", i, opn, resText(bare.res[i]), resText(got.res[i]), trace()))
 				break
 			}
 		}
 		if bare.state != got.state && !lax {
-			r.Violate(fmt.Sprintf("state/%s/%s/%s/%s", c.Mode, sd.name, c.Params, firstDiffOp(c.Units, bare, got)), "the same committed data as the plain driver", loc, fmt.Sprintf("bare: %s\nproxy: %s\n%s", bare.state, got.state, trace()))
+			r.Violate(fmt.Sprintf("state/%s/%s/%s/%s", mode, sd.name, c.Params, firstDiffOp(c.Units, bare, got)), "the same committed data as the plain driver", loc, fmt.Sprintf("bare: %s\nproxy: %s\n%s", bare.state, got.state, trace()))
 		}
 		if got.openTx != bare.openTx || got.locks != bare.locks {
-			r.Violate(fmt.Sprintf("hygiene/%s/%s/%s/%s", c.Mode, sd.name, c.Params, firstDiffOp(c.Units, bare, got)), "when the program is over no connection sits in an open transaction or holds row locks (as with the bare driver)", loc,
+			r.Violate(fmt.Sprintf("hygiene/%s/%s/%s/%s", mode, sd.name, c.Params, firstDiffOp(c.Units, bare, got)), "when the program is over no connection sits in an open transaction or holds row locks (as with the bare driver)", loc,
 				fmt.Sprintf("open transactions: proxy %d bare %d; row locks: proxy %d bare %d\n%s", got.openTx, bare.openTx, got.locks, bare.locks, trace()))
 		}
 		if c.Mode == "mixed" && (lax || sameResults(bare.res, got.res)) && len(bare.marks) == len(got.marks) {
@@ -712,12 +795,19 @@ func evalCase(r *rep.Run, envs map[string]*sys.Env, c Case, idx int) {
 				r.Violate(fmt.Sprintf("tc-traffic/%s/%s", sd.name, c.Params), "no coordinator traffic outside a global transaction", loc, trace())
 			}
 			// identical journals
+			if c.Fault == 0 && len(bare.journal) == len(got.journal) {
+				same := true
+				for i := range bare.journal {
+					same = same && bare.journal[i] == got.journal[i]
+				}
+				journalSame[sd.name] = same
+			}
 			if len(bare.journal) != len(got.journal) {
-				r.Violate(fmt.Sprintf("journal/%s/%s/%s/%s", c.Mode, sd.name, c.Params, firstJournalDiff(bare.journal, got.journal)), "the same statements reach the database in the same order with the same arguments", loc, trace())
+				r.Violate(fmt.Sprintf("journal/%s/%s/%s/%s", mode, sd.name, c.Params, firstJournalDiff(bare.journal, got.journal)), "the same statements reach the database in the same order with the same arguments", loc, trace())
 			} else {
 				for i := range bare.journal {
 					if bare.journal[i] != got.journal[i] {
-						r.Violate(fmt.Sprintf("journal/%s/%s/%s/%s", c.Mode, sd.name, c.Params, firstJournalDiff(bare.journal, got.journal)), "the same statements reach the database in the same order with the same arguments", loc, trace())
+						r.Violate(fmt.Sprintf("journal/%s/%s/%s/%s", mode, sd.name, c.Params, firstJournalDiff(bare.journal, got.journal)), "the same statements reach the database in the same order with the same arguments", loc, trace())
 						break
 					}
 				}
